@@ -58,6 +58,59 @@ Definition spec_time (p : apoint) (prec : bytes) (default_ns : Z) : Z :=
   | None => (default_ns - default_ns mod spec_mult prec)%Z
   end.
 
+(* ---- timestamps at the requested precision ----
+   The timestamp of a line is decimal text: an optional '-' and one or more digits.  Its value
+   is that integer (any size, computed in Z: nothing wraps here); the instant it denotes is the
+   value times the unit of the precision.  The server stores instants from MinNanoTime to
+   MaxNanoTime (int64 nanoseconds, less the two lowest and the highest value, models/time.go);
+   a line whose instant lies outside must be rejected, never stored as another instant. *)
+Definition spec_min_nano_time : Z := (-9223372036854775806)%Z.
+Definition spec_max_nano_time : Z := 9223372036854775806%Z.
+
+Fixpoint spec_dec (acc : Z) (l : bytes) : option Z :=
+  match l with
+  | [] => Some acc
+  | c :: r => if is_digit c then spec_dec (acc * 10 + Z.of_N (c - c_0))%Z r else None
+  end.
+
+Definition spec_ts_value (s : bytes) : option Z :=
+  match s with
+  | [] => None
+  | c :: r =>
+      if c =? c_minus
+      then match r with [] => None | _ => option_map Z.opp (spec_dec 0 r) end
+      else spec_dec 0 s
+  end.
+
+Definition spec_in_time_range (ns : Z) : bool :=
+  ((spec_min_nano_time <=? ns) && (ns <=? spec_max_nano_time))%Z.
+
+(* what must happen to timestamp text [s] at precision [prec]: [Some ns] = accepted and stored
+   as exactly [ns] nanoseconds; [None] = rejected (not a decimal integer, or out of range) *)
+Definition spec_ts_verdict (s prec : bytes) : option Z :=
+  match spec_ts_value s with
+  | Some t => let ns := (t * spec_mult prec)%Z in if spec_in_time_range ns then Some ns else None
+  | None => None
+  end.
+
+(* the same for an abstract point: None = the line must be rejected *)
+Definition spec_time_verdict (p : apoint) (prec : bytes) (default_ns : Z) : option Z :=
+  match a_time p with
+  | Some t => let ns := (t * spec_mult prec)%Z in if spec_in_time_range ns then Some ns else None
+  | None => Some (spec_time p prec default_ns)
+  end.
+
+(* timestamp text that is one token for the line splitter and the scanner: non-empty, no
+   whitespace the scanner skips (space, tab, NUL), no line break, no quote, no backslash *)
+Definition ts_token (s : bytes) : bool :=
+  match s with
+  | [] => false
+  | _ => forallb (fun c => negb (mem c [c_nul; c_tab; c_nl; 13; c_space; c_quote; c_bs])) s
+  end.
+
+(* the line used to observe one timestamp text: "m v=1 " followed by the text *)
+Definition ts_line (s : bytes) : bytes := [109; c_space; 118; c_eq; 49; c_space] ++ s.
+
 (* FNV-64a as published: offset basis 0xcbf29ce484222325, prime 0x100000001b3 *)
 Definition spec_fnv64a (l : bytes) : N :=
   fold_left (fun h c => (N.lxor h c * 1099511628211) mod 18446744073709551616) l 14695981039346656037.
